@@ -41,24 +41,54 @@ theorem kvCas_applied_effect (s : State) (i : Nat) (k : String) (v : KVal) (c : 
   rw [← setCasFails_eq_false_iff] at h
   simp [kvCas, h]
 
-/-- What the set writes: the requested content; CreateIndex inherited or `i`; ModifyIndex `i`
-    unless the stored entry already equals the request (then the row is left alone). -/
+/-- the content `kvsSetTxn` stores: the request, with the stored lock holder unless the caller
+    (lock / unlock / session invalidation) updates the session -/
+def kvStored (old : Cell KVal) (v : KVal) (updateSession : Bool) : KVal :=
+  if updateSession then v else { v with session := match old with | some e => e.val.session | none => "" }
+
+/-- What the set writes: the requested content (the lock holder is kept); CreateIndex inherited
+    or `i`; ModifyIndex `i` unless the stored entry already equals it (then the row is left alone). -/
+theorem kvSetCore_get (s : State) (i : Nat) (k : String) (v : KVal) (u : Bool) :
+    tget (kvSetCore s i k v u).kvs k =
+      match tget s.kvs k with
+      | some e => if e.val = kvStored (some e) v u then some e else some ⟨kvStored (some e) v u, e.create, i⟩
+      | none => some ⟨kvStored none v u, i, i⟩ := by
+  cases h : tget s.kvs k with
+  | none => cases u <;> simp [kvSetCore, kvStored, h]
+  | some e =>
+    cases u
+    · by_cases hv : e.val = { v with session := e.val.session }
+      · simp only [kvSetCore, kvStored, h]; simp [← hv, h]
+      · simp only [kvSetCore, kvStored, h]; simp [hv]
+    · by_cases hv : e.val = v <;> simp [kvSetCore, kvStored, h, hv]
+
 theorem kvSet_get (s : State) (i : Nat) (k : String) (v : KVal) :
     tget (kvSet s i k v).kvs k =
       match tget s.kvs k with
-      | some e => if e.val = v then some e else some ⟨v, e.create, i⟩
-      | none => some ⟨v, i, i⟩ := by
-  cases h : tget s.kvs k with
-  | none => simp [kvSet, h]
-  | some e => by_cases hv : e.val = v <;> simp [kvSet, h, hv]
+      | some e => if e.val = kvStored (some e) v false then some e else some ⟨kvStored (some e) v false, e.create, i⟩
+      | none => some ⟨kvStored none v false, i, i⟩ := kvSetCore_get s i k v false
+
+/-- a plain set (and therefore a cas) never changes the lock holder of the key -/
+theorem kvSet_keeps_session (s : State) (i : Nat) (k : String) (v : KVal) (e : Ver KVal)
+    (h : tget s.kvs k = some e) :
+    ∃ e', tget (kvSet s i k v).kvs k = some e' ∧ e'.val.session = e.val.session := by
+  rw [kvSet_get, h]
+  by_cases hv : e.val = kvStored (some e) v false
+  · exact ⟨e, by simp only [← hv, if_true], rfl⟩
+  · exact ⟨⟨kvStored (some e) v false, e.create, i⟩, by simp only [hv, if_false], by simp [kvStored]⟩
 
 /-- …and no other key is touched. -/
-theorem kvSet_frame (s : State) (i : Nat) (k k' : String) (v : KVal) (h : k' ≠ k) :
-    tget (kvSet s i k v).kvs k' = tget s.kvs k' := by
-  unfold kvSet
+theorem kvSetCore_frame (s : State) (i : Nat) (k k' : String) (v : KVal) (u : Bool) (h : k' ≠ k) :
+    tget (kvSetCore s i k v u).kvs k' = tget s.kvs k' := by
+  have key : ∀ (x : Ver KVal), tget (tput s.kvs k x) k' = tget s.kvs k' := fun x => tget_tput_ne _ _ _ _ h
+  unfold kvSetCore
   split
-  · split <;> simp [tget_tput_ne _ _ _ _ h]
-  · simp [tget_tput_ne _ _ _ _ h]
+  · dsimp only
+    split <;> (split <;> first | rfl | exact key _)
+  · exact key _
+
+theorem kvSet_frame (s : State) (i : Nat) (k k' : String) (v : KVal) (h : k' ≠ k) :
+    tget (kvSet s i k v).kvs k' = tget s.kvs k' := kvSetCore_frame s i k k' v false h
 
 /-! ## KV: `KVSDeleteCAS` / txn verb `delete-cas` -/
 
@@ -99,6 +129,199 @@ theorem kvDelete_get (s : State) (i : Nat) (k : String) : tget (kvDelete s i k).
   split
   · next he => exact he
   · simp
+
+/-! ## KV: session-conditioned writes `KVSLock` / `KVSUnlock` and the txn verbs `lock` / `unlock`
+
+The condition is not an index but the lock holder: `lock` applies iff the named session exists and
+the key is free or already held by that very session; `unlock` applies iff the key is held by the
+named session. -/
+
+/-- the key is held by session `se` -/
+def HeldBy (c : Cell KVal) (se : String) : Prop :=
+  match c with
+  | none => False
+  | some e => e.val.session = se
+
+instance (c : Cell KVal) (se : String) : Decidable (HeldBy c se) := by unfold HeldBy; split <;> infer_instance
+
+/-- nobody else holds the key -/
+def FreeFor (c : Cell KVal) (se : String) : Prop :=
+  match c with
+  | none => True
+  | some e => e.val.session = se ∨ e.val.session = ""
+
+instance (c : Cell KVal) (se : String) : Decidable (FreeFor c se) := by unfold FreeFor; split <;> infer_instance
+
+def LockMatch (s : State) (k se : String) : Prop :=
+  se ≠ "" ∧ (tget s.sess se).isSome ∧ FreeFor (tget s.kvs k) se
+
+def UnlockMatch (s : State) (k se : String) : Prop := se ≠ "" ∧ HeldBy (tget s.kvs k) se
+
+instance (s : State) (k se : String) : Decidable (LockMatch s k se) := by unfold LockMatch; infer_instance
+instance (s : State) (k se : String) : Decidable (UnlockMatch s k se) := by unfold UnlockMatch; infer_instance
+
+/-- the LockIndex a successful `lock` stores -/
+def lockIndexAfter (c : Cell KVal) (se : String) : Nat :=
+  match c with
+  | none => 1
+  | some e => if e.val.session = se then e.val.lockIndex else e.val.lockIndex + 1
+
+/-- the complete behaviour of `kvsLockTxn` in terms of `LockMatch` -/
+theorem kvLockTxn_spec (s : State) (i : Nat) (k : String) (v : KVal) :
+    kvLockTxn s i k v =
+      if v.session = "" then .error .missingSession
+      else if (tget s.sess v.session).isNone then .error .invalidSession
+      else if FreeFor (tget s.kvs k) v.session then
+        .ok (true, kvSetCore s i k { v with lockIndex := lockIndexAfter (tget s.kvs k) v.session } true)
+      else .ok (false, s) := by
+  unfold kvLockTxn
+  by_cases h1 : v.session = ""
+  · simp [h1]
+  · by_cases h2 : (tget s.sess v.session).isNone = true
+    · simp [h1, h2]
+    · simp only [h1, h2, if_false]
+      cases hk : tget s.kvs k with
+      | none => simp [FreeFor, lockIndexAfter]
+      | some e =>
+        by_cases h3 : e.val.session = v.session
+        · simp [FreeFor, lockIndexAfter, h3]
+        · by_cases h4 : e.val.session = ""
+          · have h5 : ¬ "" = v.session := fun hh => h1 hh.symm
+            simp [FreeFor, lockIndexAfter, h4, h5]
+          · simp [FreeFor, h3, h4]
+
+/-- `KVSLock` reports `true` exactly when the session exists and nobody else holds the key -/
+theorem kvLock_reported_iff_matched (s : State) (i : Nat) (k : String) (v : KVal) :
+    (kvLock s i k v).reported = true ↔ LockMatch s k v.session := by
+  unfold kvLock LockMatch
+  rw [kvLockTxn_spec]
+  by_cases h1 : v.session = ""
+  · simp [h1, ofLock, Out.reported]
+  · by_cases h2 : (tget s.sess v.session).isNone = true
+    · have : (tget s.sess v.session).isSome = false := by simpa using h2
+      simp [h1, h2, this, ofLock, Out.reported]
+    · have : (tget s.sess v.session).isSome = true := by
+        cases h : tget s.sess v.session <;> simp_all
+      by_cases h3 : FreeFor (tget s.kvs k) v.session <;> simp [h1, h2, h3, this, ofLock, Out.reported]
+
+/-- not reported (held by another session, or no such session: an error) ⇒ nothing changes -/
+theorem kvLock_failed_unchanged (s : State) (i : Nat) (k : String) (v : KVal)
+    (h : ¬ LockMatch s k v.session) : (kvLock s i k v).state = s := by
+  unfold kvLock
+  cases hr : kvLockTxn s i k v with
+  | error e => rfl
+  | ok x =>
+    obtain ⟨b, s'⟩ := x
+    cases b with
+    | false => rfl
+    | true =>
+      exfalso; apply h
+      have := (kvLock_reported_iff_matched s i k v).mp (by simp [kvLock, hr, ofLock, Out.reported])
+      exact this
+
+/-- reported ⇒ the key now carries the request's value and flags, is held by the session, with
+    LockIndex kept on re-acquisition and raised by one on a fresh acquisition -/
+theorem kvLock_applied_effect (s : State) (i : Nat) (k : String) (v : KVal)
+    (h : LockMatch s k v.session) :
+    kvLock s i k v =
+      ⟨kvSetCore s i k { v with lockIndex := lockIndexAfter (tget s.kvs k) v.session } true, .ok true⟩ := by
+  obtain ⟨h1, h2, h3⟩ := h
+  have h2' : (tget s.sess v.session).isNone = false := by cases hh : tget s.sess v.session <;> simp_all
+  unfold kvLock
+  rw [kvLockTxn_spec]
+  simp [h1, h2', h3, ofLock]
+
+/-- after a successful lock the session holds the key -/
+theorem kvLock_holds (s : State) (i : Nat) (k : String) (v : KVal) (h : LockMatch s k v.session) :
+    HeldBy (tget (kvLock s i k v).state.kvs k) v.session := by
+  rw [kvLock_applied_effect s i k v h]
+  simp only [kvSetCore_get, kvStored, if_true]
+  cases hk : tget s.kvs k with
+  | none => simp [HeldBy]
+  | some e =>
+    simp only []
+    split
+    · next heq => simp only [HeldBy]; rw [heq]
+    · simp [HeldBy]
+
+theorem kvUnlockTxn_spec (s : State) (i : Nat) (k : String) (v : KVal) :
+    kvUnlockTxn s i k v =
+      if v.session = "" then .error .missingSession
+      else if HeldBy (tget s.kvs k) v.session then
+        .ok (true, kvSetCore s i k { v with session := "", lockIndex := match tget s.kvs k with | some e => e.val.lockIndex | none => 0 } true)
+      else .ok (false, s) := by
+  unfold kvUnlockTxn
+  by_cases h1 : v.session = ""
+  · simp [h1]
+  · cases hk : tget s.kvs k with
+    | none => simp [h1, HeldBy]
+    | some e => by_cases h3 : e.val.session = v.session <;> simp [h1, HeldBy, h3]
+
+/-- `KVSUnlock` reports `true` exactly when the named session holds the key -/
+theorem kvUnlock_reported_iff_matched (s : State) (i : Nat) (k : String) (v : KVal) :
+    (kvUnlock s i k v).reported = true ↔ UnlockMatch s k v.session := by
+  unfold kvUnlock UnlockMatch
+  rw [kvUnlockTxn_spec]
+  by_cases h1 : v.session = ""
+  · simp [h1, ofLock, Out.reported]
+  · by_cases h3 : HeldBy (tget s.kvs k) v.session <;> simp [h1, h3, ofLock, Out.reported]
+
+theorem kvUnlock_failed_unchanged (s : State) (i : Nat) (k : String) (v : KVal)
+    (h : ¬ UnlockMatch s k v.session) : (kvUnlock s i k v).state = s := by
+  unfold kvUnlock
+  rw [kvUnlockTxn_spec]
+  by_cases h1 : v.session = ""
+  · simp [h1, ofLock]
+  · have h3 : ¬ HeldBy (tget s.kvs k) v.session := fun hh => h ⟨h1, hh⟩
+    simp [h1, h3, ofLock]
+
+theorem kvUnlock_applied_effect (s : State) (i : Nat) (k : String) (v : KVal)
+    (h : UnlockMatch s k v.session) :
+    kvUnlock s i k v =
+      ⟨kvSetCore s i k { v with session := "", lockIndex := match tget s.kvs k with | some e => e.val.lockIndex | none => 0 } true, .ok true⟩ := by
+  unfold kvUnlock
+  rw [kvUnlockTxn_spec]
+  simp [h.1, h.2, ofLock]
+
+/-- the txn verb `lock` is accepted exactly when `LockMatch` holds in the working state… -/
+theorem kvLockTxn_reported_iff_matched (w : State) (i : Nat) (k : String) (v : KVal) :
+    (txn w i [.kvLock k v]).committed = true ↔ LockMatch w k v.session := by
+  rw [← kvLock_reported_iff_matched w i k v, txn_single]
+  unfold kvLock
+  cases h : kvLockTxn w i k v with
+  | error e => simp [tapply, h, ofLockTxn, ofLock, Out.committed, Out.reported, Except.map]
+  | ok x => obtain ⟨b, s'⟩ := x; cases b <;> simp [tapply, h, ofLockTxn, ofLock, Out.committed, Out.reported, Except.map]
+
+/-- …and `unlock` exactly when `UnlockMatch` does -/
+theorem kvUnlockTxn_reported_iff_matched (w : State) (i : Nat) (k : String) (v : KVal) :
+    (txn w i [.kvUnlock k v]).committed = true ↔ UnlockMatch w k v.session := by
+  rw [← kvUnlock_reported_iff_matched w i k v, txn_single]
+  unfold kvUnlock
+  cases h : kvUnlockTxn w i k v with
+  | error e => simp [tapply, h, ofLockTxn, ofLock, Out.committed, Out.reported, Except.map]
+  | ok x => obtain ⟨b, s'⟩ := x; cases b <;> simp [tapply, h, ofLockTxn, ofLock, Out.committed, Out.reported, Except.map]
+
+/-- the pure guards of a transaction (`check-index`, `check-session`, `check-not-exists`) never
+    change the working state, whatever they answer -/
+theorem txn_guard_writes_nothing (w : State) (i : Nat) (op : TOp) (r : State × List TRes)
+    (hg : match op with | .kvCheckIndex .. | .kvCheckSession .. | .kvCheckNotExists .. => True | _ => False)
+    (h : tapply w i op = .ok r) : r.1 = w := by
+  cases op <;> simp at hg
+  all_goals
+    simp only [tapply, Except.map] at h
+    split at h <;> simp at h
+    rw [← h]
+
+/-- a transaction guarded by `check-index` applies NONE of its writes when the guard fails:
+    all-or-nothing is conditional on every guard -/
+theorem txn_failed_guard_unchanged (s : State) (i : Nat) (k : String) (c : Nat) (ops : List TOp)
+    (h : ¬ DelMatch (tget s.kvs k) c) : (txn s i (.kvCheckIndex k c :: ops)).state = s := by
+  have he : tapply s i (.kvCheckIndex k c) = .error (match tget s.kvs k with | none => .keyMissing | some _ => .indexMismatch) := by
+    unfold DelMatch at h
+    cases hk : tget s.kvs k with
+    | none => simp [tapply, kvCheckIndex, hk, Except.map]
+    | some e => simp [hk] at h; simp [tapply, kvCheckIndex, hk, h, Except.map]
+  simp [txn, txnLoop, he]
 
 /-! ## Catalog verbs inside a transaction (single-operation transactions)
 
@@ -228,6 +451,9 @@ theorem nodeDelete_effect (s : State) (i : Nat) (n : String) (e : Ver NodeVal) (
     tget (nodeDelete s i n).nodes (lc n) = none ∧
     (∀ p ∈ (nodeDelete s i n).svcs, p.1.1 ≠ lc n) ∧ (∀ p ∈ (nodeDelete s i n).chks, p.1.1 ≠ lc n) := by
   simp only [nodeDelete, h, List.foldl_map]
+  obtain ⟨hN, hS, hC⟩ := foldl_sessDelete_CatEq (fun y : String × Ver SessVal => y.1)
+    (List.filter (fun p => decide (lc p.2.val.node = lc n)) _) _ i
+  rw [hN, hS, hC]
   refine ⟨?_, ?_, ?_⟩
   · simp [(foldl_chkDelete _ _ _ i n).1, (foldl_svcDelete _ _ _ i n).1]
   · intro p hp hk
@@ -742,6 +968,132 @@ theorem aclTokenBatch_error_unchanged (s : State) (i : Nat) (cas : Bool) (ts : L
   unfold tokBatchSet at h ⊢
   cases hl : tokLoop s i cas ts <;> simp_all
 
+/-! ## ACL bootstrap: `ACLBootstrap(idx, resetIndex, token)` — conditional on the reset index -/
+
+/-- bootstrap is allowed: never done before, or the supplied reset index is the recorded one -/
+def BootMatch (s : State) (reset : Nat) : Prop :=
+  match iget s.idx "acl-token-bootstrap" with
+  | none => True
+  | some v => reset ≠ 0 ∧ reset = v
+
+instance (s : State) (reset : Nat) : Decidable (BootMatch s reset) := by unfold BootMatch; split <;> infer_instance
+
+theorem tokSetOne_plain (s : State) (i : Nat) (t : TokReq) (hv : TokValid s t) :
+    tokSetOne s i false t = .ok (tokWrite s i t) := by
+  cases ho : tget s.toks t.accessor with
+  | none => simp [tokSetOne, hv.1, hv.2.1, ho]; simp [tokWrite, stamp, ho]
+  | some e =>
+    have hs := hv.2.2 e ho
+    simp only [tokSetOne, hv.1, hv.2.1, if_false]
+    simp [ho, hs, tokWrite, stamp]
+
+/-- the bootstrap succeeds (answers nil) exactly when it is allowed -/
+theorem aclBootstrap_reported_iff_matched (s : State) (i reset : Nat) (t : TokReq) (hv : TokValid s t) :
+    (tokBootstrap s i reset t).res = .unit ↔ BootMatch s reset := by
+  unfold tokBootstrap BootMatch
+  simp only [tokSetOne_plain s i t hv]
+  cases iget s.idx "acl-token-bootstrap" with
+  | none => simp
+  | some v =>
+    by_cases h0 : reset = 0
+    · simp [h0]
+    · by_cases h1 : reset = v
+      · subst h1; simp [h0]
+      · simp [h0, h1]
+
+/-- a bootstrap that does not succeed — wrong or missing reset index, or a token the store
+    refuses — leaves every table and the bootstrap marker unchanged -/
+theorem aclBootstrap_failed_unchanged (s : State) (i reset : Nat) (t : TokReq)
+    (h : (tokBootstrap s i reset t).res ≠ .unit) : (tokBootstrap s i reset t).state = s := by
+  unfold tokBootstrap at h ⊢
+  cases ht : tokSetOne s i false t with
+  | error e => simp only []; split <;> (try split) <;> (try split) <;> rfl
+  | ok w =>
+    simp only [ht] at h ⊢
+    split at h <;> (try split at h) <;> (try split at h) <;> simp_all
+
+/-- a stale or zero reset index after a bootstrap is refused with the documented errors -/
+theorem aclBootstrap_unmatched_errors (s : State) (i reset : Nat) (t : TokReq) (h : ¬ BootMatch s reset) :
+    tokBootstrap s i reset t = ⟨s, .err (if reset = 0 then .bootstrapNotAllowed else .bootstrapInvalidReset)⟩ := by
+  unfold BootMatch at h
+  unfold tokBootstrap
+  cases hb : iget s.idx "acl-token-bootstrap" with
+  | none => simp [hb] at h
+  | some v =>
+    simp only [hb] at h ⊢
+    by_cases h0 : reset = 0
+    · simp [h0]
+    · have : reset ≠ v := fun e => h ⟨h0, e⟩
+      simp [h0, this]
+
+/-- allowed ⇒ the token is written and the marker is set to the raft index: from then on the only
+    reset index that is accepted is this very index (one-shot; each reset consumes its index) -/
+theorem aclBootstrap_applied_effect (s : State) (i reset : Nat) (t : TokReq) (hv : TokValid s t)
+    (h : BootMatch s reset) :
+    tokBootstrap s i reset t =
+      ⟨{ tokWrite s i t with idx := iset (tokWrite s i t).idx "acl-token-bootstrap" i }, .unit⟩ ∧
+    ∀ r, BootMatch (tokBootstrap s i reset t).state r ↔ (r ≠ 0 ∧ r = i) := by
+  have key : tokBootstrap s i reset t =
+      ⟨{ tokWrite s i t with idx := iset (tokWrite s i t).idx "acl-token-bootstrap" i }, .unit⟩ := by
+    unfold BootMatch at h
+    unfold tokBootstrap
+    simp only [tokSetOne_plain s i t hv]
+    cases hb : iget s.idx "acl-token-bootstrap" with
+    | none => rfl
+    | some v =>
+      simp only [hb] at h
+      obtain ⟨h1, h2⟩ := h
+      subst h2
+      simp [h1]
+  refine ⟨key, fun r => ?_⟩
+  rw [key]
+  simp [BootMatch, iget_iset_self]
+
+/-! ## Session invalidation: no lock outlives its session -/
+
+theorem kvSetCore_sess (s : State) (i : Nat) (k : String) (v : KVal) (u : Bool) : (kvSetCore s i k v u).sess = s.sess := by
+  cases h : tget s.kvs k with
+  | none => simp [kvSetCore, h]
+  | some e => simp only [kvSetCore, h]; split <;> (split <;> rfl)
+
+/-- destroying a session removes it, whatever its behaviour… -/
+theorem sessDelete_gone (s : State) (i : Nat) (id : String) : tget (sessDelete s i id).sess id = none := by
+  unfold sessDelete
+  cases h : tget s.sess id with
+  | none => simpa using h
+  | some e =>
+    simp only []
+    have hd : ∀ (l : List String) (w : State), (l.foldl (fun w k => kvDelete w i k) w).sess = w.sess := by
+      intro l; induction l with
+      | nil => intro w; rfl
+      | cons k l ih => intro w; rw [List.foldl_cons, ih]; unfold kvDelete; split <;> rfl
+    have hr : ∀ (l : List String) (w : State), (l.foldl (fun w k => kvRelease w i k) w).sess = w.sess := by
+      intro l; induction l with
+      | nil => intro w; rfl
+      | cons k l ih =>
+        intro w; rw [List.foldl_cons, ih]; unfold kvRelease
+        split
+        · exact kvSetCore_sess _ _ _ _ _
+        · rfl
+    split
+    · rw [hd]; simp
+    · rw [hr]; simp
+
+/-- …and a session that does not exist is destroyed without any effect (`SessionDestroy` and the
+    txn verb are idempotent) -/
+theorem sessDelete_absent (s : State) (i : Nat) (id : String) (h : tget s.sess id = none) :
+    sessDelete s i id = s := by simp [sessDelete, h]
+
+/-- a session can only be created on a registered node; a refused creation changes nothing -/
+theorem sessCreate_needs_node (s : State) (i : Nat) (id n b : String) (h : tget s.nodes (lc n) = none) :
+    ∃ e, sessCreate s i id n b = .error e := by
+  unfold sessCreate
+  split
+  · exact ⟨_, rfl⟩
+  · split
+    · exact ⟨_, rfl⟩
+    · exact ⟨.missingNode, by simp [h]⟩
+
 /-! ## Transactions and the FSM layer -/
 
 /-- `TxnRW` is all-or-nothing: a response with errors means nothing was committed -/
@@ -771,7 +1123,12 @@ def txnPre (w : State) (i : Nat) : List TOp → Nat → State
 /-- when a transaction verb is accepted in working state `w`: the conditional verbs need their
     index to match the row as it is in `w`; every write needs its prerequisites -/
 def OpMatched (w : State) : TOp → Prop
-  | .kvSet _ _ | .kvDelete _ | .nodeDelete _ | .svcDelete _ _ | .chkDelete _ _ => True
+  | .kvSet _ _ | .kvDelete _ | .nodeDelete _ | .svcDelete _ _ | .chkDelete _ _ | .sessDelete _ => True
+  | .kvLock k v => LockMatch w k v.session
+  | .kvUnlock k v => UnlockMatch w k v.session
+  | .kvCheckSession k se => HeldBy (tget w.kvs k) se
+  | .kvCheckIndex k c => DelMatch (tget w.kvs k) c
+  | .kvCheckNotExists k => tget w.kvs k = none
   | .kvCas k _ c => SetMatch (tget w.kvs k) c
   | .kvDeleteCas k c => KvDelMatch (tget w.kvs k) c
   | .nodeSet v => nodeRefused w v = false
@@ -797,6 +1154,22 @@ theorem tapply_ok_iff (w : State) (i : Nat) (op : TOp) : (∃ r, tapply w i op =
   | nodeDelete n => simp [tapply, OpMatched]
   | svcDelete n id => simp [tapply, OpMatched]
   | chkDelete n id => simp [tapply, OpMatched]
+  | sessDelete id => simp [tapply, OpMatched]
+  | kvLock k v => rw [← committed_single_iff]; exact kvLockTxn_reported_iff_matched w i k v
+  | kvUnlock k v => rw [← committed_single_iff]; exact kvUnlockTxn_reported_iff_matched w i k v
+  | kvCheckSession k se =>
+    simp only [OpMatched, HeldBy]
+    cases h : tget w.kvs k with
+    | none => simp [tapply, kvCheckSession, h, Except.map]
+    | some e => by_cases hm : e.val.session = se <;> simp [tapply, kvCheckSession, h, hm, Except.map]
+  | kvCheckIndex k c =>
+    simp only [OpMatched, DelMatch]
+    cases h : tget w.kvs k with
+    | none => simp [tapply, kvCheckIndex, h, Except.map]
+    | some e => by_cases hm : e.modify = c <;> simp [tapply, kvCheckIndex, h, hm, Except.map]
+  | kvCheckNotExists k =>
+    simp only [OpMatched]
+    cases h : tget w.kvs k <;> simp [tapply, kvCheckNotExists, h, Except.map]
   | kvCas k v c =>
     simp only [OpMatched, ← setCasFails_eq_false_iff]
     cases h : setCasFails (tget w.kvs k) c <;> simp [tapply, kvCas, ofCas, h, Except.map]
@@ -896,15 +1269,15 @@ theorem txn_op_reported_iff_matched (s : State) (i : Nat) (ops : List TOp) (p : 
 /-- the second `cas` with the same index inside one transaction is judged against the row the
     first one wrote: it is refused, and so is the whole transaction -/
 theorem txn_chain_example :
-    let s := kvSet {} 5 "a" ⟨"v", 0⟩
-    txn s 9 [.kvCas "a" ⟨"w", 0⟩ 5, .kvCas "a" ⟨"x", 0⟩ 5] = ⟨s, .txnErr [(1, .stale)]⟩ ∧
-    (txn s 9 [.kvCas "a" ⟨"w", 0⟩ 5, .kvCas "a" ⟨"x", 0⟩ 9]).committed = true := by
+    let s := kvSet {} 5 "a" ⟨"v", 0, 0, ""⟩
+    txn s 9 [.kvCas "a" ⟨"w", 0, 0, ""⟩ 5, .kvCas "a" ⟨"x", 0, 0, ""⟩ 5] = ⟨s, .txnErr [(1, .stale)]⟩ ∧
+    (txn s 9 [.kvCas "a" ⟨"w", 0, 0, ""⟩ 5, .kvCas "a" ⟨"x", 0, 0, ""⟩ 9]).committed = true := by
   decide
 
 /-- conditional commands that answer with a boolean (everything except the token batch and txn) -/
 def Cmd.conditional : Cmd → Bool
   | .kvCas .. | .kvDeleteCas .. | .cfgCas .. | .cfgStatusCas .. | .cfgDeleteCas .. | .caCas ..
-  | .rootsCas .. | .rootsAndConfig .. | .apCas .. | .fg .. => true
+  | .rootsCas .. | .rootsAndConfig .. | .apCas .. | .fg .. | .kvLock .. | .kvUnlock .. => true
   | _ => false
 
 /-- SUMMARY over the Store API: a conditional command that does not report success has not
@@ -952,6 +1325,14 @@ theorem conditional_not_reported_unchanged (s : State) (i : Nat) (c : Cmd) (hc :
     by_cases m : FgMatch s ep es ∧ FgAdm s p st
     · simp [(featureGate_reported_iff_matched s i p st ep es).mpr m] at h
     · exact (featureGate_failed_unchanged s i p st ep es m).1
+  case kvLock k v =>
+    by_cases m : LockMatch s k v.session
+    · simp [(kvLock_reported_iff_matched s i k v).mpr m] at h
+    · exact kvLock_failed_unchanged s i k v m
+  case kvUnlock k v =>
+    by_cases m : UnlockMatch s k v.session
+    · simp [(kvUnlock_reported_iff_matched s i k v).mpr m] at h
+    · exact kvUnlock_failed_unchanged s i k v m
 
 /-- The raft command handlers add nothing to the Store methods for conditional commands, with one
     documented exception: `CAOpSetConfig` carrying ModifyIndex 0 is the UNconditional write. -/
@@ -974,24 +1355,24 @@ theorem fsm_conditional_not_reported_unchanged (s : State) (i : Nat) (c : Cmd) (
 /-! ## Non-vacuity: every hypothesis used above is satisfiable, and both outcomes occur -/
 
 /-- a store holding key `a` written at index 5 -/
-def exKV : State := kvSet {} 5 "a" ⟨"v", 0⟩
+def exKV : State := kvSet {} 5 "a" ⟨"v", 0, 0, ""⟩
 
 example : SetMatch (tget exKV.kvs "a") 5 ∧ ¬ SetMatch (tget exKV.kvs "a") 4 ∧ ¬ SetMatch (tget exKV.kvs "a") 0 ∧
     SetMatch (tget exKV.kvs "b") 0 ∧ ¬ SetMatch (tget exKV.kvs "b") 5 := by
-  simp [exKV, kvSet, tget, tput, tdel, SetMatch]
+  simp [exKV, kvSet, kvSetCore, tget, tput, tdel, SetMatch]
 
 /-- current index ⇒ applied with the new ModifyIndex; stale index ⇒ refused, state identical -/
 theorem kvCas_example :
-    (kvCas exKV 9 "a" ⟨"w", 0⟩ 5).res = .ok true ∧
-    tget (kvCas exKV 9 "a" ⟨"w", 0⟩ 5).state.kvs "a" = some ⟨⟨"w", 0⟩, 5, 9⟩ ∧
-    kvCas exKV 9 "a" ⟨"w", 0⟩ 4 = ⟨exKV, .ok false⟩ := by
-  simp [exKV, kvCas, kvSet, setCasFails, tget, tput, tdel]
+    (kvCas exKV 9 "a" ⟨"w", 0, 0, ""⟩ 5).res = .ok true ∧
+    tget (kvCas exKV 9 "a" ⟨"w", 0, 0, ""⟩ 5).state.kvs "a" = some ⟨⟨"w", 0, 0, ""⟩, 5, 9⟩ ∧
+    kvCas exKV 9 "a" ⟨"w", 0, 0, ""⟩ 4 = ⟨exKV, .ok false⟩ := by
+  simp [exKV, kvCas, kvSet, kvSetCore, setCasFails, tget, tput, tdel]
 
 /-- re-created entity: the index of the earlier life (5) no longer matches the new life (8) -/
 theorem recreated_example :
-    let s := kvSet (kvDelete exKV 7 "a") 8 "a" ⟨"v", 0⟩
-    kvCas s 9 "a" ⟨"w", 0⟩ 5 = ⟨s, .ok false⟩ ∧ (kvCas s 9 "a" ⟨"w", 0⟩ 8).res = .ok true := by
-  simp [exKV, kvCas, kvSet, kvDelete, setCasFails, tget, tput, tdel]
+    let s := kvSet (kvDelete exKV 7 "a") 8 "a" ⟨"v", 0, 0, ""⟩
+    kvCas s 9 "a" ⟨"w", 0, 0, ""⟩ 5 = ⟨s, .ok false⟩ ∧ (kvCas s 9 "a" ⟨"w", 0, 0, ""⟩ 8).res = .ok true := by
+  simp [exKV, kvCas, kvSet, kvSetCore, kvDelete, setCasFails, tget, tput, tdel]
 
 def exRoots : List RootReq := [("r1", ⟨"ca", true⟩), ("r2", ⟨"old", false⟩)]
 
@@ -1055,6 +1436,32 @@ example : FgMatch {} 0 0 ∧ FgAdm {} (some "gate") (some "d") ∧ ¬ FgAdm {} n
 
 example : TokValid {} ⟨"acc", "sec", "d", 0⟩ ∧ ¬ TokValid {} ⟨"acc", "", "d", 0⟩ := by
   simp [TokValid, tget]
+
+/-- a store with node n1, session `s1` on it, and key `a` locked by `s1` at index 7 -/
+def exLock : State :=
+  let s0 : State := nodeSetByName {} 3 ⟨"n1", "", "10.0.0.1"⟩
+  match sessCreate s0 5 "s1" "n1" "" with
+  | .ok s1 => (kvLock s1 7 "a" ⟨"v", 0, 0, "s1"⟩).state
+  | .error _ => s0
+
+/-- lock / unlock: both outcomes occur, the holder is recorded, a cas keeps the holder, and
+    invalidating the node releases the key at the raft index of the delete -/
+theorem lock_examples :
+    HeldBy (tget exLock.kvs "a") "s1" ∧ LockMatch exLock "a" "s1" ∧ ¬ LockMatch exLock "a" "s2" ∧
+    UnlockMatch exLock "a" "s1" ∧ ¬ UnlockMatch exLock "a" "s2" ∧ ¬ UnlockMatch exLock "b" "s1" ∧
+    kvLock exLock 9 "a" ⟨"w", 0, 0, "s2"⟩ = ⟨exLock, .err .invalidSession⟩ ∧
+    (kvUnlock exLock 9 "a" ⟨"w", 0, 0, "s1"⟩).res = .ok true ∧
+    tget (kvUnlock exLock 9 "a" ⟨"w", 0, 0, "s1"⟩).state.kvs "a" = some ⟨⟨"w", 0, 1, ""⟩, 7, 9⟩ ∧
+    tget (kvCas exLock 9 "a" ⟨"w", 0, 0, ""⟩ 7).state.kvs "a" = some ⟨⟨"w", 0, 0, "s1"⟩, 7, 9⟩ ∧
+    tget (nodeDelete exLock 11 "n1").kvs "a" = some ⟨⟨"v", 0, 1, ""⟩, 7, 11⟩ ∧
+    (nodeDelete exLock 11 "n1").sess = [] := by
+  decide
+
+example : BootMatch {} 0 ∧ BootMatch {} 7 ∧
+    ¬ BootMatch (tokBootstrap {} 4 0 ⟨"acc", "sec", "d", 0⟩).state 0 ∧
+    BootMatch (tokBootstrap {} 4 0 ⟨"acc", "sec", "d", 0⟩).state 4 ∧
+    ¬ BootMatch (tokBootstrap {} 4 0 ⟨"acc", "sec", "d", 0⟩).state 3 := by
+  decide
 
 example : DelMatch (apSet {} 4 100).autopilot 4 ∧ ¬ DelMatch ({} : State).autopilot 0 := by
   simp [DelMatch, apSet, stamp]
